@@ -231,6 +231,9 @@ pub struct World {
     /// non-zero: the standard caller actors drop their service value as soon as the call future exists
     /// (`clone().oneshot(req)` style), whatever their other habits are
     pub oneshot_style: AtomicU64,
+    /// the probe panics when one request is re-issued more often than this (a layer looping inside
+    /// one poll cannot be stopped by any scheduler); long-outage scenarios raise it
+    pub runaway_cap: AtomicU64,
 }
 
 impl World {
@@ -244,6 +247,7 @@ impl World {
             habits: AtomicU64::new(0),
             ready_faults: AtomicU64::new(0),
             oneshot_style: AtomicU64::new(0),
+            runaway_cap: AtomicU64::new(50_000),
             st: Mutex::new(Inner {
                 log: Vec::new(),
                 seq: 0,
@@ -551,9 +555,9 @@ impl tower::Service<Req> for Probe {
             *a += 1;
             // a layer that re-issues one request without end (inside one poll, where no scheduler
             // can stop it) would otherwise only end with the process
-            if attempt > 50_000 {
+            if attempt as u64 > self.w.runaway_cap.load(Ordering::Relaxed) {
                 drop(st);
-                panic!("probe: runaway: more than 50000 inner calls for request {}", req.id);
+                panic!("probe: runaway: more than {} inner calls for request {}", self.w.runaway_cap.load(Ordering::Relaxed), req.id);
             }
             let step = if req.script.is_empty() {
                 Step { lat: Lat::Us(0), out: Out::Ok }
